@@ -286,6 +286,10 @@ def concretize(model, v, max_len=12):
         return [concretize(model, x) for x in v]
     if isinstance(v, dict):
         return {k: concretize(model, x) for k, x in v.items()}
+    from .text import SText, concretize_text
+
+    if isinstance(v, SText):
+        return concretize_text(model, v)
     if isinstance(v, SSlice):
         return slice(concretize(model, v.start), concretize(model, v.stop), concretize(model, v.step))
     if isinstance(v, LRef):
